@@ -19,6 +19,7 @@ import (
 	"verifharness/internal/ev"
 	"verifharness/internal/genlab"
 	"verifharness/internal/jsonv"
+	"verifharness/internal/mutate"
 )
 
 var posRe = regexp.MustCompile(`(at )?[^\s:"]*:\d+:\d+|line \d+(:\d+)?|column \d+|offset \d+`)
@@ -42,6 +43,8 @@ func crafted() map[string]string {
 		"crafted/numbers":         head + `{"type":"object","properties":{"a":{"type":"number","minimum":0.5,"maximum":1e3,"multipleOf":0.25},"b":{"type":"integer","minimum":-10,"maximum":10,"exclusiveMinimum":true},"c":{"type":"string","minLength":1,"maxLength":10,"pattern":"^[a-z]+: #\\d{1,3}$"},"d":{"type":"array","items":{"type":"integer"},"minItems":1,"maxItems":5,"uniqueItems":true}}}` + tail,
 		"crafted/extensions":      head + `{"type":"object","x-ogen-name":"Renamed","description":"line one\nline two: with colon # and hash\n\ttabbed","properties":{"a":{"type":"string","x-ogen-name":"FieldA","example":"yes"},"b":{"type":"integer","x-whatever":{"k":[1,"1",1.0,true,null,{"n":{}}]},"example":1}},"example":{"a":"no","b":2}}` + tail,
 		"crafted/oneof":           head + `{"oneOf":[{"type":"string"},{"type":"integer"},{"type":"object","required":["k"],"properties":{"k":{"type":"string"}}},{"type":"array","items":{"type":"number"}}]}` + tail,
+		"crafted/enum-punct":      head + `{"type":"string","enum":["5\" pipe","say \"hi\"","a\"b","it's","a'b","a:b","a#b","a: b","a #b","x,y","[x","{y","a]","b}","a*b","*star","&amp","a&b","!bang","a!b","%pct","@at","` + "`tick" + `","a|b","|bar","a>b",">gt","-dash","- dash","?q","a?","=","<<","..","1_000","0o7","+1",".5","1.",".inf",".nan","0b1","2001-01-01","12:30:45","1:20","190:20:30.15","0x1F","1e3","~x","a\\b","C:\\dir","http://x.y/z?a=b&c=d#frag","key: value","- item","? complex","a, b","[a, b]","{a: b}","# comment","a # comment","'single'","\"double\"","tab\there","é è","日本語","😀 smile","\u00a0nbsp","trailing:","::","--","---","...","Yes","NO","On","oFF","Null","TRUE","nan","Inf"]}` + tail,
+		"crafted/default-punct":   head + `{"type":"object","properties":{"a":{"type":"string","default":"5\" pipe"},"b":{"type":"string","default":"it's"},"c":{"type":"string","default":"a: b"},"d":{"type":"string","default":"x #y"},"e":{"type":"string","default":"12:30:45"},"f":{"type":"string","default":"2001-01-01"},"g":{"type":"string","default":"0x1F"},"h":{"type":"string","default":"a\\b"},"i":{"type":"string","default":"[x]"},"j":{"type":"string","default":"{y}"},"k":{"type":"string","default":"1_000"},"l":{"type":"string","default":".5"},"m":{"type":"string","default":"say \"hi\"","example":"say \"bye\""},"n":{"type":"array","items":{"type":"string"},"default":["a\"b","c'd","1:20"]},"o":{"type":"object","additionalProperties":{"type":"string"},"default":{"k\"1":"v\"1","k:2":"v: 2"}}}}` + tail,
 		"crafted/invalid-enum":    head + `{"type":"integer","enum":[1,1.0]}` + tail,
 		"crafted/invalid-type":    head + `{"type":"strin"}` + tail,
 		"crafted/invalid-default": head + `{"type":"integer","default":"yes"}` + tail,
@@ -49,6 +52,22 @@ func crafted() map[string]string {
 		"crafted/invalid-pattern": head + `{"type":"string","pattern":"(unclosed"}` + tail,
 		"crafted/invalid-minmax":  head + `{"type":"string","minLength":-1}` + tail,
 	}
+	// invalid documents whose diagnostic names several places; the place reported first lies later in the text
+	inv := func(paths, comps string) string {
+		return `{"openapi":"3.0.3","info":{"title":"t","version":"1.0"},"paths":` + paths + `,"components":{"schemas":` + comps + `}}`
+	}
+	ok200 := `"responses":{"200":{"description":"ok"}}`
+	m["crafted/invalid-dup-operation-id"] = inv(`{"/b":{"get":{"operationId":"dup",`+ok200+`}},"/a":{"get":{"operationId":"dup",`+ok200+`}}}`, `{}`)
+	m["crafted/invalid-dup-operation-id-3"] = inv(`{"/c":{"get":{"operationId":"dup",`+ok200+`},"post":{"operationId":"dup",`+ok200+`}},"/b":{"get":{"operationId":"other",`+ok200+`}},"/a":{"put":{"operationId":"dup",`+ok200+`}}}`, `{}`)
+	m["crafted/invalid-dup-path"] = inv(`{"/x/{b}":{"get":{"parameters":[{"name":"b","in":"path","required":true,"schema":{"type":"string"}}],`+ok200+`}},"/x/{a}":{"get":{"parameters":[{"name":"a","in":"path","required":true,"schema":{"type":"string"}}],`+ok200+`}}}`, `{}`)
+	m["crafted/invalid-dup-parameter"] = inv(`{"/p":{"get":{"parameters":[{"name":"q","in":"query","schema":{"type":"string"}},{"name":"z","in":"query","schema":{"type":"string"}},{"name":"q","in":"query","schema":{"type":"integer"}}],`+ok200+`}}}`, `{}`)
+	m["crafted/invalid-dup-parameter-path-level"] = inv(`{"/p":{"get":{"parameters":[{"name":"q","in":"header","schema":{"type":"string"}},{"name":"Q","in":"header","schema":{"type":"string"}}],`+ok200+`},"parameters":[{"name":"r","in":"query","schema":{"type":"string"}},{"name":"r","in":"query","schema":{"type":"string"}}]}}`, `{}`)
+	m["crafted/invalid-schema-and-content"] = inv(`{"/p":{"get":{"parameters":[{"name":"q","in":"query","content":{"application/json":{"schema":{"type":"string"}}},"schema":{"type":"string"}}],`+ok200+`}}}`, `{}`)
+	m["crafted/invalid-dup-enum-late"] = inv(`{"/p":{"get":{"responses":{"200":{"description":"ok","content":{"application/json":{"schema":{"$ref":"#/components/schemas/E"}}}}}}}}`, `{"E":{"type":"string","enum":["b","a","c","a"]}}`)
+	m["crafted/invalid-dup-field-name"] = inv(`{"/p":{"get":{"responses":{"200":{"description":"ok","content":{"application/json":{"schema":{"$ref":"#/components/schemas/O"}}}}}}}}`, `{"O":{"type":"object","properties":{"zed":{"type":"string","x-ogen-name":"Same"},"alpha":{"type":"string","x-ogen-name":"Same"}}}}`)
+	m["crafted/invalid-dup-header"] = inv(`{"/p":{"get":{"responses":{"200":{"description":"ok","headers":{"X-B":{"schema":{"type":"string"}},"x-b":{"schema":{"type":"string"}}}}}}}}`, `{}`)
+	m["crafted/invalid-dup-security"] = `{"openapi":"3.0.3","info":{"title":"t","version":"1.0"},"paths":{"/p":{"get":{"security":[{"nope":[]}],` + ok200 + `}}},"components":{"securitySchemes":{"k":{"type":"apiKey","in":"header","name":"X"}}}}`
+	m["crafted/invalid-two-faults"] = inv(`{"/z":{"get":{"parameters":[{"name":"q","in":"nowhere","schema":{"type":"string"}}],`+ok200+`}},"/a":{"get":{"parameters":[{"name":"q","in":"query","schema":{"type":"strin"}}],`+ok200+`}}}`, `{}`)
 	return m
 }
 
@@ -140,16 +159,8 @@ func Main(args []string) int {
 
 	outcomes := map[string]string{}
 	var outMu sync.Mutex
-	ev.Parallel(len(docs), runtime.NumCPU(), func(i int) {
-		d := docs[i]
-		if only != "" && d.id != only {
-			return
-		}
-		tree, err := doctree.Load(d.text)
-		if err != nil {
-			r.Count("documents_not_loadable_by_harness", 1)
-			return
-		}
+	var judge func(i int, d doc, tree *jsonv.Value)
+	judge = func(i int, d doc, tree *jsonv.Value) {
 		want := jsonv.Compact(tree)
 		// the original spelling, three times: ogen may pick among several faults by map order
 		o0 := run(d.text, d.base)
@@ -220,18 +231,87 @@ func Main(args []string) int {
 				saveTxt()
 				r.Violate("different-code:"+st.Name, fmt.Sprintf("%s: %s spelling generates different code in %v", d.id, st.Name, diff), w)
 			case !o0.ok && stable && o.err != o0.err:
+				// ogen may pick among several faults (or among several routes to one fault) by map order: the
+				// difference is attributed to the spelling only if no run of either spelling yields the other's text
+				seen0, seen1 := map[string]bool{o0.err: true}, map[string]bool{o.err: true}
+				for k := 0; k < 12; k++ {
+					seen0[run(d.text, d.base).err] = true
+					seen1[run(txt, d.base).err] = true
+				}
+				overlap := false
+				for e := range seen0 {
+					if seen1[e] {
+						overlap = true
+					}
+				}
+				if overlap {
+					r.Count("diagnostic_varies_between_runs_of_one_spelling", 1)
+					break
+				}
 				saveTxt()
 				r.Violate("different-diagnostic:"+st.Name, fmt.Sprintf("%s: diagnostics differ beyond positions: original %q, %s %q", d.id, o0.err, st.Name, o.err), w)
 			}
-			if i < 2 {
+			if i >= 0 && i < 2 {
 				r.Sample(w)
 			}
+		}
+	}
+	ev.Parallel(len(docs), runtime.NumCPU(), func(i int) {
+		d := docs[i]
+		if only != "" && d.id != only && !strings.HasPrefix(only, d.id+"|") {
+			return
+		}
+		tree, err := doctree.Load(d.text)
+		if err != nil {
+			r.Count("documents_not_loadable_by_harness", 1)
+			return
+		}
+		if only == "" || only == d.id {
+			judge(i, d, tree)
+		}
+		// faulty variants of the document (the fault injector of C11): mostly invalid documents, whose
+		// diagnostics must agree across spellings too
+		if strings.HasPrefix(d.id, "crafted/invalid") {
+			return
+		}
+		prng := ev.NewRand(r.Seed, "c17-mutants", d.id)
+		plan := mutate.Plan(tree, 40, prng)
+		for k := len(plan) - 1; k > 0; k-- {
+			j := prng.Intn(k + 1)
+			plan[k], plan[j] = plan[j], plan[k]
+		}
+		taken := 0
+		for _, sp := range plan {
+			if taken >= r.N(5, 40) {
+				break
+			}
+			switch sp.Kind {
+			case "deep-nesting", "deep-array", "long-string", "allof-cycle-inline", "allof-cycle-direct":
+				continue // resource-shaped faults are C11's; they make every spelling slow
+			}
+			m := mutate.At(tree, sp.Path, sp.Kind)
+			if m == nil {
+				continue
+			}
+			taken++
+			mid := d.id + "|" + m.Kind + "@" + m.At
+			if only != "" && only != mid {
+				continue
+			}
+			txt, _ := doctree.Emit(m.Tree, doctree.StyleByName("json-indent2"))
+			mt, err := doctree.Load(txt)
+			if err != nil {
+				r.Count("mutants_not_loadable_by_harness", 1)
+				continue
+			}
+			r.Count("mutants", 1)
+			judge(-1, doc{mid, txt, d.base}, mt)
 		}
 	})
 	r.Set("styles", len(doctree.Styles))
 	r.Set("document_outcomes_original_spelling", outcomes)
 	r.Assume("re-spellers are the harness's own; every re-spelling is first loaded back by the harness (gopkg.in/yaml.v3 / strict JSON parser) and discarded unless it denotes the same ordered data")
-	r.Assume("diagnostics are compared after replacing file:line:col, 'line N', 'column N', 'offset N' by <pos>; a failing document whose diagnostic already varies between three runs of the original spelling is inconclusive for that clause")
+	r.Assume("diagnostics are compared after replacing file:line:col, 'line N', 'column N', 'offset N' by <pos>; a failing document whose diagnostic already varies between three runs of the original spelling is inconclusive for that clause, and a difference is attributed to the spelling only if 12 further runs of each spelling never produce the other's text")
 	return r.Finish("each document (crafted order/text-sensitive specs, PRNG-chosen corpus documents incl. negative ones; all corpus in thorough) x 8 re-spellings; generated file hashes or position-stripped diagnostics compared with the original spelling. distinct = (document, style)", 150, false)
 }
 
